@@ -6,6 +6,8 @@
       /repo), compiled, and a SMOKE version of the mapped checks is run on it (the
       main generated-input test of each mapped property, 300 cases, one fixed seed).
       Outcome per mutant: nocompile | killed (VIOLATION line) | timeout | survived.
+  tools/mutsweep.py stage1b [--workers 8] [--out DIR]
+      survivors of stage 1 again with 4000 cases per mapped property and another seed.
   tools/mutsweep.py stage2 [--workers 4] [--out DIR]
       survivors of stage 1 are run through the real quick checks of the mapped
       properties (VERIF_REPO=<copy> ./check <ID> --tier quick).
@@ -100,7 +102,7 @@ def apply(d, m):
 def revert(d, m):
     shutil.copy("/repo/" + m["file"], d + "/repo/" + m["file"])
 
-def stage1_one(d, m):
+def stage1_one(d, m, cases=300, shrink="1s", tmo=90):
     apply(d, m)
     try:
         rc, out = sh(["go", "build", "./..."], cwd=d + "/repo", timeout=300)
@@ -116,8 +118,8 @@ def stage1_one(d, m):
                    VERIF_STATS=d + "/stats.json")
         timeouts = []
         for p in props:
-            rc, out = sh([binp, "-test.run", "^Test%s$" % p, "-rapid.checks=300", "-rapid.seed=7", "-rapid.nofailfile",
-                          "-rapid.shrinktime=1s", "-test.timeout=90s"], cwd=d, timeout=120, env=env)
+            rc, out = sh([binp, "-test.run", "^Test%s$" % p, "-rapid.checks=%d" % cases, "-rapid.seed=%d" % (7 + cases), "-rapid.nofailfile",
+                          "-rapid.shrinktime=" + shrink, "-test.timeout=%ds" % tmo], cwd=d, timeout=tmo + 30, env=env)
             if "VIOLATION property=" in out:
                 det = [l for l in out.splitlines() if l.startswith("DETAIL")]
                 return "killed", p + ": " + (det[0][:200] if det else "")
@@ -133,6 +135,9 @@ def stage1_one(d, m):
     finally:
         revert(d, m)
         shutil.rmtree(d + "/replays", ignore_errors=True)
+
+def stage1b_one(d, m):
+    return stage1_one(d, m, cases=4000, tmo=400)
 
 def stage2_one(d, m):
     apply(d, m)
@@ -224,9 +229,14 @@ def main():
         muts = list_mutants(files, stride)
         print("mutants:", len(muts), flush=True)
         run_stage(stage1_one, muts, workers, out + "/stage1.jsonl", load(out + "/stage1.jsonl"))
-    elif stage == "stage2":
+    elif stage == "stage1b":
         s1 = load(out + "/stage1.jsonl")
-        muts = [r for r in s1.values() if r["result"] in ("survived", "timeout")]
+        muts = [r for r in s1.values() if r["result"] in ("survived", "timeout", "killed-other") and r["file"] in MAP]
+        print("stage-1 survivors:", len(muts), flush=True)
+        run_stage(stage1b_one, muts, workers, out + "/stage1b.jsonl", load(out + "/stage1b.jsonl"))
+    elif stage == "stage2":
+        s1 = load(out + "/stage1b.jsonl")
+        muts = [r for r in s1.values() if r["result"] in ("survived", "timeout", "killed-other")]
         print("stage-1 survivors:", len(muts), flush=True)
         run_stage(stage2_one, muts, workers, out + "/stage2.jsonl", load(out + "/stage2.jsonl"))
     elif stage == "stage3":
@@ -234,7 +244,7 @@ def main():
         muts = [r for r in s2.values() if r["result"] in ("survived", "inconclusive")]
         print("stage-2 survivors:", len(muts), flush=True)
         run_stage(stage3_one, muts, workers, out + "/stage3.jsonl", load(out + "/stage3.jsonl"))
-    for s in ("stage1", "stage2", "stage3"):
+    for s in ("stage1", "stage1b", "stage2", "stage3"):
         r = load(out + "/%s.jsonl" % s)
         if r:
             c = {}
